@@ -388,6 +388,53 @@ Definition lib_session_pat (fixed server : bool) (limit : Z) (pat : list bool) (
   let* (c, rs) := read_loop_pat (S (length inp)) fixed pat (new_conn server limit inp) [] in
   Ok (rev' rs, rev' (c_out c)).
 
+(* ---- application-side writes between the reads.  WriteControl is [write_control]; WriteMessage
+   for a payload that fits the write buffer (prepWrite, then one final frame through flushFrame /
+   Conn.write; no compression: newCompressionWriter = nil) is [write_message].  Both test the
+   close-sent latch (writeErr) and set it when a Close frame went out. *)
+Inductive appop :=
+| AControl (t : Z) (data : bytes)      (* c.WriteControl(t, data, deadline) *)
+| AMessage (t : Z) (data : bytes).     (* c.WriteMessage(t, data) *)
+
+Definition write_message (t : Z) (data : bytes) (c : conn) : conn * N :=
+  if negb (is_control t) && negb (is_data t) then (c, 2%N)            (* prepWrite: errBadWriteOpCode *)
+  else if c_wclosed c then (c, 1%N)                                     (* prepWrite: writeErr = ErrCloseSent *)
+  else if is_control t && (websocket_maxControlFramePayloadSize <? Z.of_N (lenN data)) then (c, 2%N)
+  else (set_out c ((t, data) :: c_out c) (t =? websocket_CloseMessage), 0%N).
+
+Definition do_app (op : appop) (c : conn) : conn * N :=
+  match op with
+  | AControl t d => write_control t d c
+  | AMessage t d => write_message t d c
+  end.
+
+(* the operations scheduled before the k-th read, in order; result codes newest first *)
+Fixpoint apply_apps (k : nat) (apps : list (nat * appop)) (c : conn) (codes : list N) : conn * list N :=
+  match apps with
+  | [] => (c, codes)
+  | (i, op) :: more =>
+    if Nat.eqb i k then let (c', n) := do_app op c in apply_apps k more c' (n :: codes)
+    else apply_apps k more c codes
+  end.
+
+Fixpoint read_loop_app (fuel : nat) (k : nat) (fixed : bool) (apps : list (nat * appop)) (c : conn)
+         (acc : list rresult) (codes : list N) : res (conn * list rresult * list N) :=
+  match fuel with
+  | O => Err 99
+  | S f =>
+    let (c, codes) := apply_apps k apps c codes in
+    let* (c, r) := read_message fixed c in
+    match r with
+    | RMsg _ _ => read_loop_app f (S k) fixed apps c (r :: acc) codes
+    | RErr _ => Ok (c, r :: acc, codes)
+    end
+  end.
+
+Definition lib_session_app (fixed server : bool) (limit : Z) (apps : list (nat * appop)) (inp : bytes)
+  : res (list rresult * list (Z * bytes) * list N) :=
+  let* (cr, codes) := read_loop_app (S (length inp)) 0 fixed apps (new_conn server limit inp) [] [] in
+  Ok (rev' (snd cr), rev' (c_out (fst cr)), rev' codes).
+
 (* ================================================================== RFC 6455 receiver *)
 Open Scope N_scope.
 
@@ -613,6 +660,38 @@ Definition run_c14 (c : sx) : sx :=
                                | (_, r) => sx_result r
                                end) rs);
             SL (map (fun w => SL [SZ (fst w); SB (snd w)]) ws);
+            SL (map sx_event evs); sx_outcome o]
+      | Err _ => SL [SZ 1]
+      | Panic _ => s_panic
+      end
+    else bad_case
+  | SL [SZ fixed; SZ server; SZ limit; SZ _; SB wire; SL []; SL apps] =>
+    (* application writes between the reads: (k kind type xdata), kind 0 WriteControl / 1 WriteMessage,
+       before the k-th ReadMessage; fifth field of the observation: the result of each write
+       (0 nil, 1 ErrCloseSent, 2 other) *)
+    if wf_bytesb wire then
+      let '(evs, o) := rfc_receive (server =? 1) limit wire in
+      let ops := flat_map (fun a => match a with
+                                    | SL [SZ k; SZ 0; SZ t; SB d] => [(Z.to_nat k, AControl t d)]
+                                    | SL [SZ k; SZ 1; SZ t; SB d] => [(Z.to_nat k, AMessage t d)]
+                                    | _ => []
+                                    end) apps in
+      match lib_session_app (fixed =? 1) (server =? 1) limit ops wire with
+      | Ok (rs, ws, codes) =>
+        SL [SL (map sx_result rs); SL (map (fun w => SL [SZ (fst w); SB (snd w)]) ws);
+            SL (map sx_event evs); sx_outcome o; SL (map sN codes)]
+      | Err _ => SL [SZ 1]
+      | Panic _ => s_panic
+      end
+    else bad_case
+  | SL [SZ fixed; SZ server; SZ limit; SZ _; SB wire; SL []; SL []; SL _] =>
+    (* connection made by the real Upgrade / Dial handshake (last field: its configuration), frames
+       injected at the transport: the reader is the same reader *)
+    if wf_bytesb wire then
+      let '(evs, o) := rfc_receive (server =? 1) limit wire in
+      match lib_session (fixed =? 1) (server =? 1) limit 0 wire with
+      | Ok (rs, ws) =>
+        SL [SL (map sx_result rs); SL (map (fun w => SL [SZ (fst w); SB (snd w)]) ws);
             SL (map sx_event evs); sx_outcome o]
       | Err _ => SL [SZ 1]
       | Panic _ => s_panic
